@@ -314,10 +314,65 @@ class BuiltinMixin:
         return ok(st, mk_bool(self.truth(st, pos[0])))
 
     def b_max(self, n, st):
-        c = self.contracts.get('$max')
-        if c is None:
-            raise Unsupported('max')
-        return self._args(n, st, lambda s, p, k: self.apply_contract(s, c, p, k))
+        """max(seq, key=f) for a list of strings and a key that the stubs declare pure (a function of the string with a
+        domain outside which it raises OSError): a maximal element, or ValueError for an empty list"""
+        def f(s, pos, kw):
+            key = kw.get('key')
+            pure = getattr(self.stubs, 'pure_keys', {})
+            if len(pos) != 1 or set(kw) != {'key'} or not isinstance(key, SExt) or key.dotted not in pure:
+                raise Unsupported('max() other than max(list, key=<declared pure stub>)')
+            self.used_stubs.add(key.dotted)
+            kf, dom = pure[key.dotted]
+            seq = z3.simplify(self.seq_of(s, pos[0]))
+            nlen = z3.Length(seq)
+            out = []
+            empty, rest = self.split(s, nlen == 0)
+            if empty is not None:
+                out.extend(exc(empty, 'ValueError'))
+            if rest is None:
+                return out
+            # structural view of the list: single elements and symbolic sub-sequences (keeps the solver away from
+            # seq.nth over concatenations)
+            parts = []
+            for c in (seq.children() if (z3.is_app(seq) and seq.decl().kind() == z3.Z3_OP_SEQ_CONCAT) else [seq]):
+                if z3.is_app(c) and c.decl().kind() == z3.Z3_OP_SEQ_UNIT:
+                    parts.append(('elem', c.arg(0)))
+                else:
+                    parts.append(('seq', c))
+            j = z3.Int('max!j')
+
+            def forall_elems(pred):
+                cs = []
+                for kind, x in parts:
+                    if kind == 'elem':
+                        cs.append(pred(x))
+                    else:
+                        cs.append(qforall([j], z3.Implies(z3.And(j >= 0, j < z3.Length(x)), pred(x[j]))))
+                return z3.And(cs)
+
+            def some_elem(pred, tag):
+                cs = []
+                for kind, x in parts:
+                    if kind == 'elem':
+                        cs.append(pred(x))
+                    else:
+                        w = self.fresh(tag, Int)
+                        cs.append(z3.And(w >= 0, w < z3.Length(x), pred(x[w])))
+                return z3.Or(cs)
+            if not self.impossible(rest, some_elem(lambda e: z3.Not(V.is_str(e)), 'max!nonstr')):
+                self.unsupported(rest, 'max(key=...) over a list not known to hold strings only')
+            bad = rest.fork()
+            bad.assume(some_elem(lambda e: z3.Not(dom(V.s(e))), 'max!bad'))
+            if self.feasible(bad):
+                out.extend(exc(bad, 'OSError'))
+            rest.assume(forall_elems(lambda e: dom(V.s(e))))
+            r = self.fresh('max!r')
+            rest.assume(some_elem(lambda e: r == e, 'max!i'))
+            rest.assume(V.is_str(r))
+            rest.assume(forall_elems(lambda e: kf(V.s(e)) <= kf(V.s(r))))
+            out.append((rest, 'ok', r))
+            return out
+        return self._args(n, st, f)
 
     def b_next(self, n, st):
         c = self.contracts.get('$next')
